@@ -363,3 +363,38 @@ SPECS["C16"] = dict(
     assumptions=["64-bit usize (cleanup_front's usize::MAX default is 2^64-1 in the model; lengths are unbounded naturals)",
                  "SortedDeque::new(container, marker) is given a strictly sorted container with live ends (it is not checked by the code)"],
 )
+
+
+# ---------------------------------------------------------------------------------------------
+# C09: abstract half on Pipe (Props/C09.lean, track himpl) + structural half through the codecw family
+SPECS["C09"] = dict(
+    title="Streaming codecs: drained output is a prefix of the result; lag is bounded",
+    lean_modules=["Woodpile.Props.C09"],
+    theorems=[
+        "Woodpile.Props.C09.drain_commutes",
+        "Woodpile.Props.C09.drain_commutes_step",
+        "Woodpile.Props.C09.drain_prefix",
+        "Woodpile.Props.C09.drain_complete",
+        "Woodpile.Props.C09.enc_one_pending",
+        "Woodpile.Props.C09.enc_lag_pipe",
+        "Woodpile.Props.C09.dec_appends_only",
+        "Woodpile.Props.C09.dec_lag_zero",
+    ],
+    families=[dict(name="hcobs_enc", quick=3000, thorough=100000, search=20000),
+              dict(name="hcobs_dec", quick=2000, thorough=60000, search=20000),
+              dict(name="codecw", quick=160, thorough=4000, search=800, shards=dict(quick=8, thorough=16), obs_prefixes=["A", "S", "G", "R"])],
+    vtags=["C09"],
+    technique="Lean 4 proof (drains commute with producer ops on the abstract pipe; one pending placeholder; lag formula) + model/implementation correspondence incl. the structural model driven by the codec",
+    design_ref="DESIGN.md section 5, C09",
+    level_text=("Kernel-checked theorems on the abstract Pipe and the HCOBS state machines: consuming at any moments commutes with the producer, "
+                "drained ++ stable is always a prefix of the final output, drained ++ finish is complete, the encoder keeps exactly one pending "
+                "placeholder between calls with lag = header + current chunk <= 2 + maxChunk bytes at the Pipe level, the decoder emits no placeholder "
+                "(lag 0). The structural lag (whole slices hidden behind the pending header: at most one arena chunk more) is tied to /repo by the codecw "
+                "family: the codec models drive the structural iovec model and slice placement, lag and stable bytes are diffed against the real "
+                "Encoder/Decoder after every call and drain; direct oracles check prefix/completeness (hashing every snapshot) and the constant bound "
+                "1 MiB + 64008 + 2 on the real encoder, 0 on the real decoder."),
+    level_note=("Trusted: Lean kernel + 3 standard axioms; correspondence harness; the structural part of the lag bound (a hidden slice never "
+                "exceeds one arena chunk) is checked by correspondence and oracle, its theorem lives with the Layer B proofs (C03-C05)."),
+    trusted_base=["abstract Pipe as specification of OwningIovec (tied by C03/C04)"],
+    assumptions=["64-bit usize"],
+)
